@@ -357,6 +357,22 @@ func c17Gen(c *Ctx) {
 				s = append(s, c17Pieces[r.Intn(len(c17Pieces))]...)
 			}
 		}
+		if i%5 == 2 && !long {
+			// runs: 1..4 stretches of 1..40 pieces of ONE width class each (ASCII, 2-, 3-, 4-byte, invalid): word-at-a-time
+			// and same-width fast paths start only after 8 / 16 / 32 bytes of one kind
+			s = s[:0]
+			classes := [][]string{{"a", "Z", "_", " ", "7"}, {"é", "ß"}, {"€", "中"}, {"😀"}, {"\xff", "\x80"}}
+			for k, nr := 0, 1+r.Intn(4); k < nr; k++ {
+				cl := classes[r.Intn(len(classes))]
+				if k == 0 && r.Intn(2) == 0 {
+					cl = classes[0]
+				}
+				for j, m := 0, 1+r.Intn(40); j < m; j++ {
+					s = append(s, cl[r.Intn(len(cl))]...)
+				}
+			}
+			t.C.Count("runs-of-one-width", "1..4 runs of 1..40 pieces")
+		}
 		n := int64(utf8.RuneCount(s))
 		arg := func(neg bool) int64 {
 			x := r.Intn(100)
@@ -530,5 +546,5 @@ func c17Shrink(in []int64) [][]int64 {
 
 func init() {
 	Register(&Prop{ID: "C17", Pure: true, Num: 17, SpecMode: "rel", Gen: c17Gen, Impl: c17Impl, Shrink: c17Shrink, Describe: c17Describe,
-		Rule: "part 0 (exhaustive): every byte value alone, first, after an underscore, after a lower-case letter, through UcFirst/LcFirst/SnakeToCamelCase/CamelCaseToSnake; part 1 (exhaustive): every string of <= 3 (thorough 4) pieces over {a Z _ é € 😀 U+FFFD 0xff 0x80 E2-82} with Sub/Mask/SubByDisplay arguments from -1/0 to beyond the rune count and all other helpers; part 2 (exhaustive): every string of length <= 4 (6) over {a z _ 0 A é} through the case converters and their round trip; part 3: random strings of up to 9 pieces, one in 40 of 60..1600 pieces / identifiers of 20..420 words (16 pieces incl. surrogate/overlong/too-large encodings, random raw bytes) with in-range, edge, MaxInt-k, 2^31..2^62 and negative arguments. distinct = distinct (op, string, arguments); non-trivial = the string has >= 2 runes and a non-ASCII byte (identifier families: length >= 3; small/Mask additionally start+end < rune count)"})
+		Rule: "part 0 (exhaustive): every byte value alone, first, after an underscore, after a lower-case letter, through UcFirst/LcFirst/SnakeToCamelCase/CamelCaseToSnake; part 1 (exhaustive): every string of <= 3 (thorough 4) pieces over {a Z _ é € 😀 U+FFFD 0xff 0x80 E2-82} with Sub/Mask/SubByDisplay arguments from -1/0 to beyond the rune count and all other helpers; part 2 (exhaustive): every string of length <= 4 (6) over {a z _ 0 A é} through the case converters and their round trip; part 3: random strings of up to 9 pieces, one in 5 made of 1..4 runs of 1..40 pieces of one width class (ASCII / 2 / 3 / 4 bytes / invalid), one in 40 of 60..1600 pieces / identifiers of 20..420 words (16 pieces incl. surrogate/overlong/too-large encodings, random raw bytes) with in-range, edge, MaxInt-k, 2^31..2^62 and negative arguments. distinct = distinct (op, string, arguments); non-trivial = the string has >= 2 runes and a non-ASCII byte (identifier families: length >= 3; small/Mask additionally start+end < rune count)"})
 }
